@@ -72,6 +72,18 @@ class _Rename(ast.NodeTransformer):
 UP = "<caller>"
 
 
+class _SubstEnv(ast.NodeTransformer):
+    def __init__(self, env: dict[str, ast.AST]) -> None:
+        self.env = env
+
+    def visit_Name(self, node: ast.Name) -> ast.AST:  # noqa: N802
+        if isinstance(node.ctx, ast.Load) and node.id in self.env:
+            new = ast.copy_location(copy.deepcopy(self.env[node.id]), node)
+            new._inlined = True  # type: ignore[attr-defined]
+            return new
+        return node
+
+
 class OrderedSymExec(SymExec):
     """SymExec that
       * records where on the path each atomic condition was decided (effects of kind 'cond');
@@ -92,7 +104,7 @@ class OrderedSymExec(SymExec):
         super()._bind(p, target, value, lineno)
         if isinstance(target, ast.Attribute) and len(p.effects) == n + 1 and p.effects[-1].kind == "write":
             chain = u(p.effects[-1].node.elts[0])  # type: ignore[attr-defined]
-            if chain.startswith("self.") and chain.count(".") == 1:
+            if chain:
                 ren = _Rename(chain, pre_name(lineno, chain))
                 p.env = {k: ren.visit(copy.deepcopy(v)) if chain in u(v) else v for k, v in p.env.items()}
 
@@ -256,7 +268,61 @@ class OrderedSymExec(SymExec):
             out[n] = ast.fix_missing_locations(ast.copy_location(nxt, s))
         return out
 
+    def _search_else(self, p: Path, s: ast.For) -> list[tuple[Path, str]] | None:
+        """for TARGET in it: if c: break / else: <orelse>   ==   hit = next((TARGET for TARGET in it if c), None);
+        if hit is None: <orelse> else: TARGET = hit   (the loop variables are the result of the search)."""
+        ln = getattr(s, "lineno", 0)
+        bound = {n.id for x in s.body for n in ast.walk(x) if isinstance(n, ast.Name) and isinstance(n.ctx, (ast.Store, ast.Del))}
+        targets = {n.id for n in ast.walk(s.target) if isinstance(n, ast.Name)}
+        q0 = Path()
+        q0.env = {k: v for k, v in p.env.items() if k not in bound | targets}
+        try:
+            body = OrderedSymExec(256, self.prog, self.fn, self.depth).block(q0, list(s.body))
+        except AnalysisError:
+            return None
+        breaks = [q for q, st in body if st == "break"]
+        if len(breaks) != 1 or len(body) > 8 or any(st not in ("next", "break") for _q, st in body):
+            return None
+        for q, _st in body:
+            if any(e.kind != "cond" and not (e.kind == "call" and _pure_call(e.node)) for e in q.effects):  # type: ignore[arg-type]
+                return None
+            if any(k in p.env and u(v) != k for k, v in q.env.items() if k in bound):
+                return None    # the body also changes locals that live on: not a plain search
+        ifs: list[ast.expr] = []
+        for e in breaks[0].effects:
+            if e.kind == "cond":
+                as_written = next((c[4] for c in breaks[0].conds if c[2] is e.node), True)
+                atom = copy.deepcopy(e.node)
+                ifs.append(atom if as_written else ast.UnaryOp(op=ast.Not(), operand=atom))  # type: ignore[arg-type]
+        if not ifs:
+            return None
+        it = _SubstEnv(p.env).visit(copy.deepcopy(s.iter))
+        self._log(p, s.iter, it, ln)
+        elt = copy.deepcopy(s.target)
+        for n in ast.walk(elt):
+            if hasattr(n, "ctx"):
+                n.ctx = ast.Load()  # type: ignore[attr-defined]
+        gen = ast.GeneratorExp(elt=elt, generators=[ast.comprehension(
+            target=copy.deepcopy(s.target), iter=it, ifs=[ifs[0] if len(ifs) == 1 else ast.BoolOp(op=ast.And(), values=ifs)],
+            is_async=0)])
+        hit = ast.fix_missing_locations(ast.copy_location(ast.Call(
+            func=ast.Name(id="next", ctx=ast.Load()), args=[gen, ast.Constant(None)], keywords=[]), s))
+        test = ast.fix_missing_locations(ast.copy_location(
+            ast.Compare(left=hit, ops=[ast.Is()], comparators=[ast.Constant(None)]), s))
+        out: list[tuple[Path, str]] = []
+        for q, none_found in self._test(p, test, ln, test):
+            if none_found:
+                out.extend(self.block(q, list(s.orelse)))
+            else:
+                self._bind(q, s.target, copy.deepcopy(hit), ln)
+                out.append((q, "next"))
+        return out
+
     def stmt(self, p: Path, s: ast.stmt) -> list[tuple[Path, str]]:
+        if isinstance(s, ast.For) and s.orelse:
+            got = self._search_else(p, s)
+            if got is not None:
+                return got
         if isinstance(s, (ast.For, ast.AsyncFor, ast.While)):
             env = dict(p.env)
             out = super().stmt(p, s)
@@ -455,7 +521,8 @@ def _ordered_paths(prog: Program, fn: FuncInfo, inline: bool, max_paths: int) ->
     return out
 
 
-def loop_paths(paths: Iterable[Path], what: str, depth: int = 3) -> list[Path]:
+def loop_paths(paths: Iterable[Path], what: str, depth: int = 3, prog: Program | None = None,
+               fn: FuncInfo | None = None) -> list[Path]:
     """Paths through the body of every loop met on `paths` (recursively), the locals defined before the
     loop substituted in; the conditions taken before the loop are NOT assumed inside it."""
     out: list[Path] = []
@@ -469,7 +536,7 @@ def loop_paths(paths: Iterable[Path], what: str, depth: int = 3) -> list[Path]:
             seen.add(id(e.orig))
             q = Path()
             q.env = dict(getattr(e, "env", {}))
-            body = OrderedSymExec().block(q, list(e.orig.body))  # type: ignore[attr-defined]
+            body = OrderedSymExec(4096, prog, fn).block(q, list(e.orig.body))  # type: ignore[attr-defined]
             ps = [bp for bp, _st in body]
             _check_markers(ps, what)
             out.extend(ps)
